@@ -57,6 +57,8 @@ def setup():
     # c19 includes the probe's transcript by relative path
     os.makedirs(f'{SCR}/cfgprobe/src')
     shutil.copy('/verif/cfgprobe/src/transcript.rs', f'{SCR}/cfgprobe/src/transcript.rs')
+    os.makedirs(f'{SCR}/nostdprobe/src')
+    shutil.copy('/verif/nostdprobe/src/probe_core.rs', f'{SCR}/nostdprobe/src/probe_core.rs')
     home = f'{SCR}/home'
     os.makedirs(f'{home}/build')
     for name in ['regress', 'known_findings.json', 'corpus', 'refs']:
